@@ -1081,6 +1081,66 @@ func (e *Exec) exec1(op string, pos []string, kv map[string]string, line string)
 		e.checkState(line)
 		e.checkPool(line)
 		return "ok"
+	case "walktrace":
+		// a walk whose every atomic state-DB write group is observed: the node opened on the image after each group must
+		// be the corresponding element of the model's walkTrace (ties the crash model of C06 to the code)
+		n0 := len(kvmem.Log)
+		ans := e.exec1("walk", pos, map[string]string{}, line)
+		if !kvmem.Logging {
+			return ans + " T=-"
+		}
+		log := append([]kvmem.Group{}, kvmem.Log...)
+		kvmem.Logging = false
+		defer func() { kvmem.Logging = true }()
+		var tr []string
+		for k := n0 + 1; k <= len(log); k++ {
+			if !strings.HasSuffix(log[k-1].Store, "/utxoVM") {
+				continue
+			}
+			w.nodeSeq++
+			name := fmt.Sprintf("wt%d", w.nodeSeq)
+			root := chainlib.RootFor(e.scratch, name)
+			kvmem.Drop(root)
+			kvmem.ApplyGroups(w.Main.Root, root, log[:k])
+			c, err := chainlib.OpenOn(e.scratch, name, w.Main.Genesis, w.Miners[0])
+			if err != nil {
+				tr = append(tr, "open-failed:"+err.Error())
+				kvmem.Drop(root)
+				continue
+			}
+			p := "?"
+			if txs, err := c.S.GetUnconfirmedTx(false); err == nil {
+				var idx []int
+				for _, t := range txs {
+					idx = append(idx, w.TxByID[string(t.Txid)])
+				}
+				sort.Ints(idx)
+				ss := make([]string, len(idx))
+				for i, x := range idx {
+					ss[i] = fmt.Sprint(x)
+				}
+				p = strings.Join(ss, ",")
+			}
+			tr = append(tr, e.observe(c)+" pool="+p)
+			kvmem.Drop(root)
+		}
+		e.out.Count(fmt.Sprintf("walktrace-groups:%02d", len(tr)))
+		// the block-boundary part (empty pool) is compared element by element; independent pending transactions are
+		// re-admitted in an order the pool's map iteration decides, so of the re-admission part only the number of
+		// write groups and the last state are compared
+		var mid, rep []string
+		for _, x := range tr {
+			if strings.HasSuffix(x, " pool=") {
+				mid = append(mid, x)
+			} else {
+				rep = append(rep, x)
+			}
+		}
+		last := "-"
+		if len(rep) > 0 {
+			last = rep[len(rep)-1]
+		}
+		return ans + " T=" + strings.Join(mid, " || ") + fmt.Sprintf(" R=%d:", len(rep)) + last
 	case "reopen":
 		if err := w.Main.Reopen(); err != nil {
 			e.violate("reopen-failed", "reopen failed: "+err.Error(), "")
